@@ -131,19 +131,20 @@ def workspace_sizes(ck, quick, wd):
     for P in (1, 2, 4):
         for pct in (1, 5, 10, 20, 30, 45, 60, 75, 90, 100, 115, 130, 200):
             for mat in ("mat gen=random n=20 dens=250 fulldiag=1 seed=3 stype=NC", "mat gen=grid n=25 k=5 seed=2 stype=NR"):
-                items.append((P, pct, mat))
+                # the workspace pointer as a caller gets it from an allocator (offset 0) or carves it out of a pool (4, 12 bytes in)
+                items.append((P, pct, mat, (0, 4, 12)[(len(items) // 2) % 3] if pct >= 45 else 0))
 
     def one(a):
-        P, pct, mat = a
-        txt = "\n".join(HEAD + [mat, "permc order=1", "gssvx P=%d fact=DOFACT trans=N nrhs=1 lwork=auto%d" % (P, pct)]) + "\n"
+        P, pct, mat, woff = a
+        txt = "\n".join(HEAD + [mat, "permc order=1", "gssvx P=%d fact=DOFACT trans=N nrhs=1 lwork=auto%d woff=%d" % (P, pct, woff)]) + "\n"
         st, op, err = api.run_script(txt, wd, "ws%d_%d_%d" % (P, pct, len(mat)), variant="asan", timeout=90)
         rr = [r for r in api.calls_of(op) if r.get("call") == "gssvx"]
         d = [l for l in err.splitlines() if "SUMMARY" in l or "ERROR" in l]
         # the workspace as the two-ended stack it is: every critical section of p?memory.c is a step of SluStack
         sr, sn = api.validate_stack(wd, "ws%d_%d_%d" % (P, pct, len(mat)), op) if os.path.exists(op) else (None, 0)
         return a, st, (rr[-1] if rr else None), (d[-1][:160] if d else ""), txt, sr, sn
-    for (P, pct, mat), st, rec, d, txt, sr, sn in common.pmap(one, items):
-        key = "ws:P%d:%d%%:%s" % (P, pct, mat.split()[1])
+    for (P, pct, mat, woff), st, rec, d, txt, sr, sn in common.pmap(one, items):
+        key = "ws:P%d:%d%%:%s:+%d" % (P, pct, mat.split()[1], woff)
         ck.case(key)
         n = 20 if "n=20" in mat else 25
         if sr is not None:
@@ -159,7 +160,7 @@ def workspace_sizes(ck, quick, wd):
                 ck.traces()
         if not acceptable(st, rec, n):
             ck.violation("wsmall:%d" % pct if pct <= 20 else key,
-                         "caller's workspace = %d %% of the library's lwork=-1 estimate, %d thread(s): outcome %s %s guard=%s" % (pct, P, st, d, rec.get("guard") if rec else None),
+                         "caller's workspace = %d %% of the library's lwork=-1 estimate, starting %d bytes into an aligned arena, %d thread(s): outcome %s %s guard=%s" % (pct, woff, P, st, d, rec.get("guard") if rec else None),
                          {"script": txt})
 
 
@@ -179,8 +180,8 @@ def user_vs_system(ck, rng, wd, count):
         call = "gssvx P=1 fact=%s trans=%s nrhs=2 seed=7 lwork=%s" % (r.choice(["DOFACT", "EQUILIBRATE"]), r.choice(["N", "T"]), "%s")
         pc = "permc order=%d" % r.choice([0, 1, 3])
         outs = []
-        for lw in ("0", "auto150"):
-            st, op, err = api.run_script("\n".join(HEAD + [mat, pc, call % lw]) + "\n", wd, "uvs%d_%s" % (i, lw), prec=prec)
+        for lw in ("0", "auto150 woff=%d" % r.choice([0, 4, 8])):
+            st, op, err = api.run_script("\n".join(HEAD + [mat, pc, call % lw]) + "\n", wd, "uvs%d_%s" % (i, lw.split()[0]), prec=prec)
             rr = [x for x in api.calls_of(op) if x.get("call") == "gssvx"]
             outs.append((st, rr[-1] if rr else None))
         key = "uvs:%s:%s" % (prec, mat)
